@@ -202,6 +202,10 @@ pub fn scale_templates() -> Vec<(String, String)> {
     v.push(("object_with_300_methods".into(), format!("let o = object begin\n{};\nend;\nprint(\"~ ~\\n\", o.m0(), o.m299())\n", join(300, &|i| format!("function m{}() -> {}", i, i)))));
     v.push(("method_beyond_65535_instructions".into(), format!("function big(x) -> begin\n{};\nx\nend;\nprint(\"~\\n\", big(0))\n", join(11_000, &|_| "x <- x + 1".to_string()))));
     v.push(("top_level_beyond_65535_instructions".into(), format!("let x = 0;\n{};\nprint(\"~\\n\", x)\n", join(17_000, &|_| "x <- x + 1".to_string()))));
+    // lengths whose little-endian u32 holds a line-end byte (0x0A, 0x0D): a line-buffered sink treats the length prefix itself as text
+    for n in [10usize, 13, 266, 1034, 1290, 2570, 2600, 2815, 3338, 6666] {
+        v.push((format!("format_string_{}_bytes_length_prefix_holds_a_line_end", n), format!("print(\"{}\")\n", "y".repeat(n))));
+    }
     for n in [255usize, 256, 4095, 4096, 8191, 8192, 65_535, 65_536, 70_000] {
         v.push((format!("format_string_{}_bytes", n), format!("print(\"{}\\n\")\n", "x".repeat(n))));
     }
